@@ -3,6 +3,7 @@
 Descriptors are JSON-serialisable concrete data so that a recorded history can be replayed and shrunk without a PRNG."""
 
 import ast
+import json
 import re
 
 from . import corpus
@@ -158,6 +159,8 @@ def dec_opts(opts, root=None):
             v = tuple(v[1:])
         elif isinstance(v, list) and v and v[0] == '__path__':
             v = resolve_f(root, v[1])
+        elif isinstance(v, list):
+            v = list(v)  # the library gets its own object, never the (recorded) descriptor's
         out[k] = v
     return out
 
@@ -451,6 +454,19 @@ def _gen_edit(rng, tree, cfg):
     kinds = sorted(weights)
     kind = rng.choices(kinds, [weights[k] for k in kinds])[0]
     nodes = all_nodes(tree)
+    focus = cfg.get('focus_cls')
+    fnodes = fconts = ffield = None
+    if focus and rng.random() < 0.7:  # focus run: aim at nodes of the focus class (as target: the node or its children)
+        fconts = [t for t in nodes if t[1].__class__.__name__ == focus] or None
+        ffield = cfg.get('focus_field') if fconts and rng.random() < 0.75 else None
+        if ffield and not ffield.startswith('_') and not isinstance(getattr(fconts[0][1], ffield, None), list):
+            # single-valued focus field: only the one-element edit kinds apply
+            sk = [k for k in ('replace', 'remove', 'cut', 'put', 'attr_set', 'attr_del') if weights.get(k)]
+            if sk:
+                kind = rng.choices(sk, [weights[k] for k in sk])[0]
+        fnodes = [t for t in nodes if (t[2] is not None and t[2].__class__.__name__ == focus
+                                       and (ffield is None or t[3] == ffield))
+                  or (ffield is None and t[1].__class__.__name__ == focus)] or None
     p_same = cfg.get('p_same_cat', 0.85)
     opt_rate = cfg.get('opt_rate', 0.5)
     forms = cfg.get('forms', ('src', 'src', 'ast', 'fst'))
@@ -463,7 +479,7 @@ def _gen_edit(rng, tree, cfg):
     if kind in ('replace', 'remove', 'cut'):
         if not nodes:
             return None
-        path, node, parent, field, idx = rng.choice(nodes)
+        path, node, parent, field, idx = rng.choice(fnodes or nodes)
         op = {'k': kind, 'path': [list(p) for p in path], 'opts': opts}
         if kind == 'replace':
             cat = pick_cat(node_cat(node, parent, field))
@@ -477,11 +493,13 @@ def _gen_edit(rng, tree, cfg):
     # container-based ops
     conts = [((), tree, None, None, None)] + nodes
     if kind in ('put', 'attr_set', 'attr_del'):
-        path, node, _, _, _ = rng.choice(conts)
+        path, node, _, _, _ = rng.choice(fconts or conts)
         fields = [f for f in node._fields if f != 'ctx' and f != 'type_ignores']
         if not fields:
             return None
         field = rng.choice(fields)
+        if ffield in fields:
+            field = ffield
         val = getattr(node, field, None)
         cat = pick_cat(field_cat(node, field))
         op = {'k': kind, 'path': [list(p) for p in path], 'field': field, 'opts': opts}
@@ -513,7 +531,7 @@ def _gen_edit(rng, tree, cfg):
 
     # list-field ops
     lconts = []
-    for path, node, _, _, _ in conts:
+    for path, node, _, _, _ in (fconts or conts):
         for f in list_fields(node):
             if f != 'type_ignores':
                 lconts.append((path, node, f, False))
@@ -537,6 +555,13 @@ def _gen_edit(rng, tree, cfg):
         if rng.random() < 0.3:
             op['field'] = rng.choice(['body', 'orelse', 'finalbody', None])
         return op
+    if ffield and any(t[2] == ffield for t in lconts):
+        lconts = [t for t in lconts if t[2] == ffield]
+    if not lconts and fconts:
+        for path, node, _, _, _ in conts:
+            for f in list_fields(node):
+                if f != 'type_ignores':
+                    lconts.append((path, node, f, False))
     if not lconts:
         return None
     path, node, field, virtual = rng.choice(lconts)
@@ -676,12 +701,18 @@ def _view(f, field):
     return v
 
 
-def apply_edit(root, op, held=None):
+def apply_edit(root, op, held=None, opt_objs=None):
     """Execute one edit descriptor with real pfst calls.  Returns the call's return value; library exceptions
-    propagate; `Skip` if the op cannot be addressed."""
+    propagate; `Skip` if the op cannot be addressed.  `opt_objs`: a caller-owned {(option, json): list object} table;
+    list-valued options are then passed as the SAME object on every call that names the same value (a caller reusing
+    a variable), so that the caller can see whether a call changed it."""
     k = op['k']
     f = resolve_f(root, op['path'])
     opts = dec_opts(op.get('opts'), root)
+    if opt_objs is not None:
+        for ok, ov in list(opts.items()):
+            if isinstance(ov, list):
+                opts[ok] = opt_objs.setdefault((ok, json.dumps(ov)), list(ov))  # never the descriptor's own list
     code = None
     if 'code' in op:
         code, _ = make_code(op['code'], root, f)
